@@ -25,11 +25,13 @@ def run(ctx):
     # the Float correspondence of the selection / tail stages (bit-exact) is shared with C08: run a reduced version here
     # record consistency for the multivariate classes: shapes, non-negativity, final_step within the generated steps
     eng = ctx.engine('record')
+    worst_h = 0.0
     for _ in range(ctx.budget(60, 600)):
         cls = rng.choice(['Gradient', 'Jacobian', 'Hessdiag', 'Hessian', 'Derivative'])
         m = rng.choice(['central', 'forward', 'backward', 'complex', 'multicomplex'])
         dim = rng.randint(1, 4)
-        x = np.array([rng.uniform(0.3, 2) for _ in range(dim)])
+        xscale = rng.choice([2.0, 2.0, 8.0])
+        x = np.array([rng.uniform(0.3, xscale) for _ in range(dim)])
         if cls == 'Derivative':
             f = lambda t: np.exp(t) * np.sin(t)
         elif cls == 'Jacobian':
@@ -72,7 +74,40 @@ def run(ctx):
         disp = [d_ for d_ in seen if d_ > 0]
         if disp and not (np.all(np.abs(fs) <= 1.4143 * max(disp)) and np.all(np.abs(fs) >= 0.999 * min(disp) / 2.01)):
             ctx.violation('final_step outside the range of the generated steps', final_step=fs.tolist(), smallest=min(disp), largest=max(disp), **rep)
+        # honesty of the estimate against the analytic derivative of the three test functions
+        ex_ = np.exp(x)
+        if cls == 'Derivative':
+            exact = np.exp(x) * (np.sin(x) + np.cos(x))
+        elif cls == 'Jacobian':
+            exact = np.zeros((3, dim))
+            exact[0] = 2 * x
+            exact[1] = -np.prod(np.cos(x)) * np.tan(x)
+            exact[2, 0] += np.exp(x[-1])
+            exact[2, -1] += x[0] * np.exp(x[-1])
+        else:
+            grad = ex_ * np.cos(x[0])
+            grad[0] -= np.sum(ex_) * np.sin(x[0])
+            hess = np.diag(ex_ * np.cos(x[0]))
+            hess[:, 0] -= ex_ * np.sin(x[0])
+            hess[0, :] -= ex_ * np.sin(x[0])
+            hess[0, 0] -= np.sum(ex_) * np.cos(x[0])
+            exact = {'Gradient': grad, 'Hessdiag': np.diag(hess), 'Hessian': hess}[cls]
+        v_ = np.asarray(val, dtype=float)
+        if v_.shape != np.shape(exact):
+            ex2 = np.reshape(exact, v_.shape) if v_.size == np.size(exact) else None
+        else:
+            ex2 = exact
+        if ex2 is not None:
+            scale = float(np.max(np.abs(ex2))) + float(np.max(np.abs(fx))) + 1.0
+            err_ = np.abs(v_ - ex2)
+            bound = 1000.0 * np.abs(np.reshape(ee, v_.shape)) + 1e-7 * scale
+            worst_h = max(worst_h, float(np.max(err_ / bound)))
+            if np.any(err_ > bound):
+                i_ = int(np.argmax(err_ / bound))
+                ctx.violation('true error exceeds 1000 x error_estimate + rounding floor (%s)' % cls, entry=i_, got=float(v_.ravel()[i_]),
+                              exact=float(np.ravel(ex2)[i_]), error_estimate=float(ee.ravel()[i_]), **rep)
         eng['exact'] += 1
+    ctx.notes.append('multivariate honesty: worst err / (1000 est + 1e-7 scale) = %.3g' % worst_h)
     ctx.search['rule'] = ('as C01 (random expression programs x methods x n x order x step options, Taylor-series oracle) with the pair '
                           '(result, error_estimate): |result - exact| <= 1000 * error_estimate + floor(method, n) * local scale, where floor is '
                           '1% of the largest clean-tree error ratio of that (method, n); record checks (f_value == f(x), error_estimate >= 0 and '
